@@ -17,7 +17,7 @@ import h5py
 from .hdf5.h5group import H5Group
 from .block import Block
 from .section import Section
-from .container import Container, SectionContainer
+from .container import BlockContainer, SectionContainer
 from . import util
 from .exceptions import InvalidFile, DuplicateName
 from .util import find as finders
@@ -453,7 +453,7 @@ class File:
         create_block method of File. This is a read-only attribute.
         """
         if self._blocks is None:
-            self._blocks = Container("data", self, self, Block)
+            self._blocks = BlockContainer("data", self, self, Block)
         return self._blocks
 
     def find_sections(self, filtr=lambda _: True, limit=None):
